@@ -443,6 +443,180 @@ def clones_own_their_datatypes(ctx):
                       f'{a} datatype object with the class it was cloned from', f)
 
 
+def _foreign_keys_fact(a, tv):
+    """the test established that the keyword dict holds a key that is no property of the accessible (= a datatype property)"""
+    t = src(a)
+    if 'propertyDict' not in t:
+        return False
+    if isinstance(a, ast.Call) and dotted(a.func) in ('any', 'all') and a.args and isinstance(a.args[0], (ast.GeneratorExp, ast.ListComp)):
+        ops = compare_ops(a.args[0].elt)
+        if len(ops) == 1 and ops[0][2].endswith('propertyDict'):
+            if dotted(a.func) == 'any' and ops[0][1] == 'notin':
+                return tv
+            if dotted(a.func) == 'all' and ops[0][1] == 'in':
+                return not tv
+        return False
+    if isinstance(a, ast.BinOp) and isinstance(a.op, ast.Sub) and 'propertyDict' in src(a.right):
+        return tv
+    if isinstance(a, ast.Compare) and len(a.ops) == 1 and isinstance(a.ops[0], ast.LtE) and 'propertyDict' in src(a.comparators[0]):
+        return not tv
+    return False
+
+
+@rule('C09.R2f', min_instances=1)
+def given_datatype_object_is_not_modified(ctx):
+    """Parameter(descr, <datatype object>, min=.., max=.., unit=..): keywords that are no Parameter properties are datatype
+    properties and are applied by init() to self.datatype - which must then be a private copy, not the object the caller
+    handed in (a module-level singleton such as UInt16, or one object used for two parameters)"""
+    m = ctx.m
+    f = m.method(roles.PARAMETER, '__init__', inherited=False)
+    ctx.analysed(f)
+    cfg = CFG(f.node, m, f.module)
+    rd = ReachingDefs(cfg, f.node)
+    names = [a.arg for a in f.node.args.args]
+    if 'datatype' not in names:
+        raise AnchorMissing('Parameter.__init__ has no datatype parameter')
+    kw = f.node.args.kwarg.arg if f.node.args.kwarg else None
+    stores = [(t, v, st) for t, v, st in attr_stores(f.node) if t.attr == 'datatype' and dotted(t.value) == 'self' and v is not None]
+    inits = [c for c in calls_in(f.node) if call_attr(c) == 'init' and dotted(c.func.value) == 'self' and c.args and kw and kw in names_in(c.args[0])]
+    if not stores or not inits:
+        raise AnchorMissing('self.datatype = ... / self.init(kwds) not found in Parameter.__init__')
+    foreign = sides_with_fact(cfg, _foreign_keys_fact)
+    for t, v, st in stores:
+        oo = rd.origins_at(st, v)
+        raw = [o for o in oo if isinstance(o, ast.Name) and o.id.startswith('<param')]
+        if not raw:
+            ctx.ok(f'{f.qualname}:datatype properties are applied to a private datatype', st, f'`{src(st)}`: never the object that was handed in', f)
+            continue
+        # the raw object may be stored - but not when datatype properties are among the keywords: on that side the name
+        # has to be re-bound to a copy before the store
+        copies = [d for val, d, how in rd.at(st, v.id) if how == 'assign' and isinstance(val, ast.Call) and call_attr(val) == 'copy'] if isinstance(v, ast.Name) else []
+        guarded = bool(copies) and all(set(cfg.ids(d)) <= foreign for d in copies) and \
+            paths_need_fact(cfg, [cfg.entry], cfg.ids(st), lambda a, tv: _foreign_keys_fact(a, not tv), avoid=[i for d in copies for i in cfg.ids(d)])
+        ctx.check(guarded, f'{f.qualname}:datatype properties are applied to a private datatype', st,
+                  'the given datatype object is replaced by a copy whenever datatype properties are among the keywords',
+                  f'`{src(st)}` stores the datatype object the caller handed in, and `{src(inits[0])}` then applies the datatype properties among the '
+                  'keywords (min, max, unit ...) to THAT object: `Parameter("x", UInt16, max=10)` changes the module-level UInt16 for every class defined '
+                  'later, and one datatype object used for two parameters gives both the limits of the last one', f)
+
+
+_UNK = object()
+
+
+def _eval_with(test, env):
+    """truth value of a test when the names in env hold the given constants (True / False / None = not determined)"""
+    def val(e):
+        if isinstance(e, ast.Constant):
+            return e.value
+        if isinstance(e, ast.Name) and e.id in env:
+            return env[e.id]
+        return _UNK
+    if isinstance(test, ast.UnaryOp) and isinstance(test.op, ast.Not):
+        v = _eval_with(test.operand, env)
+        return None if v is None else not v
+    if isinstance(test, ast.BoolOp):
+        vals = [_eval_with(v, env) for v in test.values]
+        if isinstance(test.op, ast.And):
+            return False if any(v is False for v in vals) else (True if all(v is True for v in vals) else None)
+        return True if any(v is True for v in vals) else (False if all(v is False for v in vals) else None)
+    if isinstance(test, ast.Compare) and len(test.ops) == 1:
+        a, b = val(test.left), val(test.comparators[0])
+        if a is _UNK or b is _UNK:
+            return None
+        op = test.ops[0]
+        if isinstance(op, ast.Is):
+            return a is b
+        if isinstance(op, ast.IsNot):
+            return a is not b
+        if isinstance(op, ast.Eq):
+            return a == b
+        if isinstance(op, ast.NotEq):
+            return a != b
+        return None
+    if isinstance(test, ast.Call) and dotted(test.func) == 'isinstance' and len(test.args) == 2:
+        a = val(test.args[0])
+        return False if a is None else None
+    v = val(test)
+    return None if v is _UNK else bool(v)
+
+
+@rule('C09.R2g', min_instances=2)
+def copy_keeps_every_declared_property(ctx):
+    """copy() / clone() build the new accessible with `type(self)(**kwds)` - the constructor is run WITHOUT arguments and the
+    properties are applied afterwards (inherited ones first, then the own ones of the new object).  A Parameter subclass whose
+    __init__ forwards a keyword default of its own (`readonly=False`) to Parameter.__init__ on that argument-less path turns the
+    default into an OWN property of the copy, which then overrides the value of the original: the module instance (which holds
+    copies) is described - and served - with other flags than the class declares"""
+    m = ctx.m
+    pc = m.cls(roles.PARAMETER)
+    props = set()
+    for q in m.mro(pc.qualname):
+        c = m.classes.get(q)
+        if c is not None:
+            props |= {a for a, e in c.assigns.items() if isinstance(e, ast.Call) and dotted(e.func) == 'Property'}
+    n = 0
+    for q in m.subclasses(roles.PARAMETER):
+        ci = m.classes[q]
+        f = ci.methods.get('__init__')
+        if f is None or not ci.module.name.startswith('frappy.') or ci.module.name.startswith('frappy.gui'):
+            continue
+        a = f.node.args
+        params = a.args[1:] + a.kwonlyargs
+        defaults = [None] * (len(a.args) - 1 - len(a.defaults)) + list(a.defaults) + list(a.kw_defaults)
+        if any(d is None for d in defaults[:len(a.args) - 1]):
+            continue        # has a mandatory argument: not constructed by clone()
+        env = {prm.arg: (d.value if isinstance(d, ast.Constant) else _UNK) for prm, d in zip(params, defaults) if d is not None}
+        n += 1
+        ctx.analysed(f)
+        cfg = CFG(f.node, m, f.module)
+        # path-sensitive walk with every parameter at its default (the call made by clone())
+        seen, stack, hits = set(), [(cfg.entry, tuple(sorted((k, id(v) if v is _UNK else repr(v)) for k, v in env.items())), env)], []
+        while stack:
+            nid, key, e = stack.pop()
+            if (nid, key) in seen:
+                continue
+            seen.add((nid, key))
+            node = cfg.nodes[nid]
+            e2 = e
+            st = node.ast
+            if isinstance(st, ast.Assign) and node.kind != 'test':
+                e2 = dict(e)
+                for t in st.targets:
+                    if isinstance(t, ast.Name) and t.id in e2:
+                        e2[t.id] = st.value.value if isinstance(st.value, ast.Constant) else _UNK
+            if isinstance(st, (ast.Expr, ast.Assign, ast.Return)) and node.kind != 'test':
+                for c in calls_in(st):
+                    if call_attr(c) == '__init__' and src(c.func.value) == 'super()':
+                        for k in c.keywords:
+                            if k.arg in props and isinstance(k.value, ast.Name) and e.get(k.value.id, _UNK) not in (_UNK, None):
+                                hits.append((c, k.arg, e[k.value.id]))
+                if isinstance(st, ast.Assign):
+                    for t in st.targets:
+                        if isinstance(t, ast.Subscript) and isinstance(t.slice, ast.Constant) and t.slice.value in props and \
+                                f.node.args.kwarg and src(t.value) == f.node.args.kwarg.arg and isinstance(st.value, ast.Name) and \
+                                e.get(st.value.id, _UNK) not in (_UNK, None):
+                            hits.append((st, t.slice.value, e[st.value.id]))
+            k2 = tuple(sorted((k, id(v) if v is _UNK else repr(v)) for k, v in e2.items()))
+            for b, lab in cfg.succ[nid]:
+                if lab == 'exc':
+                    continue
+                if node.kind == 'test' and lab in ('T', 'F') and isinstance(node.ast, ast.expr):
+                    tv = _eval_with(node.ast, e2)
+                    if tv is not None and tv != (lab == 'T'):
+                        continue
+                stack.append((b, k2, e2))
+        key = f'{f.qualname}:the argument-less call made by copy() adds no own property'
+        if hits:
+            c, k, v = hits[0]
+            ctx.bad(key, c, f'constructed without arguments (as clone() does), `{src(c)[:90]}` passes {k}={v!r} - the keyword default of this __init__ - on to '
+                    f'Parameter.__init__: it becomes an own property of the copy and overrides the inherited value. A `{ci.name}` declared with {k}={not v if isinstance(v, bool) else "..."} '
+                    f'is {k}={v!r} on every module instance: the description and the behaviour of the instance differ from the class declaration', f)
+        else:
+            ctx.ok(key, f.node, 'no keyword default reaches Parameter.__init__ when all arguments are at their defaults', f)
+    if n < 2:
+        raise AnchorMissing('Parameter subclasses with an own __init__ (StructParam, FloatEnumParam) not found')
+
+
 @rule('C09.R2e', min_instances=1)
 def command_datatype_is_rebuilt_from_the_own_argument_and_result(ctx):
     """Command.finish stores a CommandType built from the CURRENT self.argument / self.result on every path: clone() first
